@@ -677,6 +677,14 @@ class ParsedProgram:
     volatile_parameter_positions: Dict[Union[int, Tuple[int, int]], VolatileRepetitionCount]
 
 
+def _get_used_waveform(waveform_loop: Loop, used_channels: FrozenSet[ChannelID]) -> Waveform:
+    """The waveform of a sequence table entry restricted to the used channels. An entry without waveform (a loop that
+    lost all its children, e.g. because they had repetition count 0) cannot be translated."""
+    if waveform_loop.waveform is None:
+        raise TaborException('The program contains a loop that has neither a waveform nor children')
+    return waveform_loop.waveform.get_subset_for_channels(used_channels)
+
+
 def parse_aseq_program(program: Loop, used_channels: FrozenSet[ChannelID]) -> ParsedProgram:
     volatile_parameter_positions = {}
 
@@ -687,7 +695,7 @@ def parse_aseq_program(program: Loop, used_channels: FrozenSet[ChannelID]) -> Pa
     for adv_position, sequencer_table_loop in enumerate(program):
         current_sequencer_table = []
         for position, (waveform, repetition_definition, volatile_repetition) in enumerate(
-                (waveform_loop.waveform.get_subset_for_channels(used_channels),
+                (_get_used_waveform(waveform_loop, used_channels),
                  waveform_loop.repetition_definition, waveform_loop.volatile_repetition)
                 for waveform_loop in cast(Sequence[Loop], sequencer_table_loop)):
 
@@ -730,7 +738,7 @@ def parse_single_seq_program(program: Loop, used_channels: FrozenSet[ChannelID])
     volatile_parameter_positions = {}
 
     for position, (waveform, repetition_definition, volatile_repetition) in enumerate(
-            (waveform_loop.waveform.get_subset_for_channels(used_channels),
+            (_get_used_waveform(waveform_loop, used_channels),
              waveform_loop.repetition_definition, waveform_loop.volatile_repetition)
             for waveform_loop in program):
         if waveform in waveforms:
